@@ -166,14 +166,43 @@ def judge(text, obs, want, case, what):
     return fail(f"{what}:roundtrip-differs", case, want, obs)
 
 
-replay = run_case
+BLOCK = 256
+
+
+def run_block(case):
+    """('blk', start): EVERY Unicode scalar value of one 256-block (no double quote, no control character) inside a value."""
+    import unicodedata
+    _, start = case
+    fails, n, nk, outcomes = [], 0, 0, set()
+    for cp in range(start, start + BLOCK):
+        if cp > 0x10FFFF or 0xD800 <= cp <= 0xDFFF:
+            continue
+        c = chr(cp)
+        if c == '"' or unicodedata.category(c) == "Cc":
+            continue
+        for sub in (("one", "alone", "X-P", "s", "a" + c + "b"), ("one", "alone", "X-P", "s|b", c), ("one", "line", "X-P", "s", c + "b"),
+                    ("one", "line", "Cn", "b|s", "a" + c), ("one", "component", "X-P", "s", "x" + c + "y")):
+            r = run_case(sub)
+            n += 1
+            outcomes.add(r["outcome"])
+            for f in r["fails"]:
+                if f.get("known"):
+                    nk += 1
+                if len(fails) < 6 or not f.get("known"):
+                    fails.append(f)
+    return {"n": n, "traces": n, "trans": 2 * n, "state": (start, tuple(sorted(outcomes)), nk), "nnontrivial": n, "nontrivial": True,
+            "outcome": "block:" + "+".join(sorted(outcomes)), "fails": fails[:12]}
+
+
+def replay(case):
+    return run_block(case) if case[0] == "blk" else run_case(case)
 
 
 def run(ctx):
     k = 3 if ctx.quick else 4
     ctx.rule = (f"E-enum: names {NAMES} (each) and pairs {PAIRS} x every string over a 22-symbol alphabet (incl. NBSP, EM SPACE, U+2028, U+FEFF, a non-BMP character) with |s|<={k} "
                 f"x shapes {SHAPES} x paths {PATHS} (component path: VEVENT and, for values starting with 'a', strict "
-                "VTODO). non-trivial = the value needs quoting/escaping attention, is a list, or the map has two names.")
+                "VTODO); plus EVERY Unicode scalar value except the double quote and the Cc control characters inside a value (scalar and list, alone / in a line / on a parsed property). non-trivial = the value needs quoting/escaping attention, is a list, or the map has two names.")
     ctx.bounds = {"alphabet": [repr(c) for c in SIGMA], "k": k, "names": list(NAMES), "shapes": list(SHAPES)}
     ctx.assumptions += ["the 'other conforming parser' may or may not apply RFC 6868 caret decoding: both readings are accepted",
                         "values are free of double quotes and control characters (as the statement says)",
@@ -190,3 +219,9 @@ def run(ctx):
                         yield ("two", path, n1, n2, which, s)
 
     ctx.explore("names x values x shapes x paths", gen, run_case)
+
+    def gen_all():
+        for b in range(0, 0x110000, BLOCK):
+            yield ("blk", b)
+
+    ctx.explore("every-scalar-value-in-a-parameter-value", gen_all, run_block)
